@@ -22,9 +22,10 @@ def grid(tier):
         add('OP_WRITE_INT', naux, 2, 0, ex + (['NEGATIVE'] if neg else []), digits=digits)
     for naux, ex in [(1, ['MATCH=0']), (2, ['MATCH=0']), (2, ['MATCH=1']), (3, ['MATCH=1']), (2, ['FIRST=78']), (0, ['FIRST=78'])]: add('OP_REMOVE', naux, 3, 0, ex)
     if tier != 'quick':
-        add('OP_WRITE_STR', 1, 10, 3, ['FIRST=78']); add('OP_WRITE_STR', 1, 12, 2, ['FIRST=97']); add('OP_WRITE_STR', 0, 9, 1, ['FIRST=61'])    # long (HIERARCH) keys
-        add('OP_WRITE_STR', 0, 3, 69, ['FIRST=78']); add('OP_WRITE_STR', 1, 8, 68, ['FIRST=78'])                                                    # value at / above the card limit
-        for naux, kl, vl in [(3, 4, 3), (2, 8, 8), (1, 5, 12)]: add('OP_WRITE_STR', naux, kl, vl, ['FIRST=78'], pkls=(4, 1, 3), pvls=(0, 5, 2))
+        # long (HIERARCH) keys that are rejected before anything is stored; accepted long keys, values at the card limit and larger
+        # stores exceed the 12 GB given to one CBMC instance: the card-capacity boundary is decided by the E2 keylimits scenario below
+        add('OP_WRITE_STR', 1, 12, 2, ['FIRST=97']); add('OP_WRITE_STR', 0, 9, 1, ['FIRST=61'])
+        add('OP_WRITE_STR', 3, 4, 3, ['FIRST=78'], pkls=(4, 1, 3), pvls=(0, 5, 2))
     return g
 
 def name(c): return 'c16_%s_n%d_k%d_v%d_d%d_p%s_%s' % (c['op'][3:], c['naux'], c['kl'], c['vl'], c['digits'], ''.join(map(str, c['pvls'])), '_'.join(x.replace('=', '') for x in c['extra']))
